@@ -79,6 +79,12 @@ CHECKS['C03'] = ('E-GROUP', 'engines/e_group.py',
     'programs are from a generated family of 12 tracing equation classes (pool of 10 trees in quick, 120 in thorough), not arbitrary user code; neighbour order fixed by sort_gids; reference interpreter in engines/e_group.py',
     'DESIGN.md section 3 E-GROUP')
 
+CHECKS['C04'] = ('E-INTEG', 'engines/e_integ.py',
+    'deterministic simulation: every shipped integrator and three user-defined ones (tracing steppers, py_stage hooks, two equation sets, update_nnps=False, different / same-class steppers per array, particle-injecting hook) and shipped steppers, compiled by the real generator and stepped serially or under a simulated loop schedule; refinement check against a literal execution of the Python one_timestep (proxy self, Python stepper methods)',
+    'seeded search over (integrator x stepper program, particle states with ghost-tagged particles, 1-4 consecutive steps incl. t0 != 0 and non-contiguous times, periodic domain on/off, simulated schedule on/off); exact equality (tracing) or 1e-13 relative (shipped steppers) of the final state and equality of the compute_accelerations(index, update_nnps) / update_domain / post-stage (t + stage_dt, dt, stage) history. Sampling, not proof.',
+    'the compiled acceleration evaluator is shared by both sides (C03\'s subject); rigid-body steppers (body-indexed arrays) left out; every run in its own forked child with the cyclic GC off (an unexplained segfault at garbage collection of earlier generated modules was seen once runs shared a process)',
+    'DESIGN.md section 3 E-GROUP / section 4 C04')
+
 PENDING = {}
 
 
@@ -122,7 +128,8 @@ def main():
 HOOK_COMMITS = ['a3361d4', '98bab96']
 
 if __name__ == '__main__':
-    for pid in ['C01', 'C03', 'C04', 'C05', 'C06', 'C07', 'C09', 'C10', 'C14', 'C16', 'C17']:
+    NA['C09'] = 'momentum conservation of the pair-symmetric terms is quantified over inputs and configurations only (particle data x kernel x neighbour algorithm); the value computed for given arrays does not depend on any schedule, clock, fault or history, so a simulator adds nothing over input sampling (DESIGN.md kept the option of an in-run monitor; it was dropped for this reason). What the schedule could change -- which thread evaluates which particle -- is decided under C05'
+    for pid in ['C01', 'C03', 'C04', 'C05', 'C06', 'C07', 'C10', 'C14', 'C16', 'C17']:
         if pid not in CHECKS:
             PENDING[pid] = 'not claimed yet: its simulation engine is planned (DESIGN.md section 4) but not built at this commit'
     main()
